@@ -457,6 +457,9 @@ type FuncSpec struct {
 	// CallSites: predicates over the arguments of the calls this function makes to a named callee ("callsite NAME: expr";
 	// inside expr the callee's parameters are written arg.<param>, everything else is the caller's state at the call)
 	CallSites []*CallSiteSpec
+	// Opaque: callees (display names) this function's verification treats as opaque calls (may-write set havoced,
+	// result unconstrained, callee contract not used - neither its requires nor its ensures)
+	Opaque   []string
 	Props    []string
 	File     string
 }
@@ -514,6 +517,9 @@ type SpecDB struct {
 	preludeDecls []string
 	specFuns     map[string]*specFun
 	files        []string
+	// closedFuncs: witness functions ("pkg.Display") whose signature is closed-world: every function value of that
+	// signature is created inside the module (declared with "closedfunc", listed as an assumption)
+	closedFuncs []string
 }
 
 type specFun struct {
@@ -584,7 +590,7 @@ func (db *SpecDB) loadContractFile(path, pkgPath string) error {
 	var items []string
 	isHead := func(t string) bool {
 		return clauseHead.MatchString(t) || strings.HasPrefix(t, "func ") || strings.HasPrefix(t, "pred ") || loopHead.MatchString(t) ||
-			strings.HasPrefix(t, "lemma") || t == "pure" || t == "inline" || t == "assumed" || t == "nopanic" || t == "maypanic" || t == "lockheld" || t == "partial" || strings.HasPrefix(t, "props ") || strings.HasPrefix(t, "smt ") || strings.HasPrefix(t, "global ") || strings.HasPrefix(t, "guarded ") || strings.HasPrefix(t, "ghostcount ") || callsiteHead.MatchString(t)
+			strings.HasPrefix(t, "lemma") || t == "pure" || t == "inline" || t == "assumed" || t == "nopanic" || t == "maypanic" || t == "lockheld" || t == "partial" || strings.HasPrefix(t, "props ") || strings.HasPrefix(t, "smt ") || strings.HasPrefix(t, "global ") || strings.HasPrefix(t, "guarded ") || strings.HasPrefix(t, "ghostcount ") || strings.HasPrefix(t, "opaque ") || strings.HasPrefix(t, "closedfunc ") || callsiteHead.MatchString(t)
 	}
 	for _, l := range lines {
 		t := strings.TrimSpace(l)
@@ -705,6 +711,12 @@ func (db *SpecDB) loadContractFile(path, pkgPath string) error {
 				return fmt.Errorf("%s: %s: %v", path, it, err)
 			}
 			cur.CallSites = append(cur.CallSites, &CallSiteSpec{Callee: strings.TrimSpace(m[2]), Clause: &Clause{Kind: "callsite", Tags: parseTags(m[1]), Src: m[3], Expr: n, Ord: len(cur.CallSites) + 1}})
+		case strings.HasPrefix(it, "closedfunc "):
+			db.closedFuncs = append(db.closedFuncs, strings.TrimSpace(it[11:]))
+		case strings.HasPrefix(it, "opaque "):
+			if cur != nil {
+				cur.Opaque = append(cur.Opaque, strings.TrimSpace(it[7:]))
+			}
 		case strings.HasPrefix(it, "props "):
 			if cur != nil {
 				cur.Props = parseTags(strings.TrimSpace(it[6:]))
